@@ -6,7 +6,9 @@ CONFIG = {
     'shrink': False,   # a case is a complete schedule; removing steps from it does not give a schedule
     'rule': 'case = (program, schedule): programs of 1-3 pushers (Push/PushFront, priorities with ties), 1-3 poppers, '
             'optional killer(s) on the FIFO and the priority queue, 1-2 waiters/signallers/resetters on ManualEvent, '
-            'each plus a finaliser thread that runs at quiescence; schedules = all interleavings at synchronisation '
+            'each plus a finaliser thread that runs at quiescence; sequential histories (one worker thread, forced schedule): every '
+            'sequence of <= 5 pushes over 5 priorities then pops, pops in the middle over 4 priorities, every FIFO string over '
+            '{Push, PushFront, Pop} of length <= 7, seeded random histories of 20-70 calls; schedules = all interleavings at synchronisation '
             'operations with <= 2 (quick) / <= 3 (thorough) preemptions and <= 1 spurious wake-up (DFS, capped per '
             'program, see extra), plus seeded random and PCT schedules with <= 3 spurious wake-ups; a case is '
             'non-trivial always (every case runs >= 2 threads); distinct = distinct hash of program + choice list',
